@@ -282,10 +282,287 @@ def c15(ctx):
     suite_email(ctx, 1, 5 if q else 6)
     suite_tld(ctx, 2)
     suite_tld(ctx, 1, 16 if q else 4)
+    suite_object(ctx, 5 if q else 6, faults=True, small=True, graph=not q)
     return finish(ctx, "model_checking",
                   "every code the model returns satisfies its truth predicate (TLC invariant on every enumerated state); every observed code "
                   "either equals the model's or is validated by TLC against the truth predicates (drift trace); eav_is_email return value, "
                   "errcode and message checked against the result code on every address vector")
+
+
+def suite_policy(ctx, part):
+    r = tlc_ok(ctx, "MC_Policy", "CONSTANTS\n  Part = %d\nINIT Init\nNEXT Next\nINVARIANT Inv\nINVARIANT OwnBitOnly\nCHECK_DEADLOCK FALSE\n" % part)
+    sample_vectors(ctx, r["out"])
+    b = build(ctx, "default", 0)
+    res = replay(ctx, b, r["out"], "policy-%d" % part)
+    crash_violation(ctx, res, ["C06", "C08"])
+    for v in res["viol"]:
+        case = {"kind": v["kind"], "what": v["what"], "mode_enum": v["mode"], "mask_x2_plus_tld_or_mask": v["opts"], "in": v["in"],
+                "text": vlib.bytes_to_text(v["in"]) if v["what"] == "address" else None,
+                "expected_ret100_err": v["exp"], "got_ret100_err": v["got"]}
+        add_violation(ctx, "C08", "policy outcome: " + v["what"], case)
+        if v["what"] in ("callback", "message"):
+            add_violation(ctx, "C15", "eav_is_email return/errcode inconsistent with the result code", case)
+    return r
+
+
+def c08(ctx):
+    suite_policy(ctx, 1)
+    suite_policy(ctx, 2)
+    suite_policy(ctx, 3)
+    return finish(ctx, "model_checking",
+                  "complete enumeration: 2^11 masks x result codes {-35..-2, 0..9} x 4 modes through a caller-installed callback; "
+                  "2^11 masks x one real address per TLD class of the table + reserved, unlisted, single-label, literal, invalid domains "
+                  "x 4 modes x tld_check; eav_init defaults; TLC also checks PolicyP = the nine-arm switch and that only a class's own "
+                  "bit matters", exhaustive=True)
+
+
+# ---------------------------------------------------------------- the object
+
+def B(t):
+    return list(t.encode("utf-8")) if isinstance(t, str) else list(t)
+
+POOL = [B("a@x.com"), B("a@xn--a.com"), B('"\x01"@x.org'), B("a@[1.2.3.4]"), B("a@example.org"), B("a@localhostx"),
+        B("a@x.zzzq"), B("a@x.abarth"), B("\u00e9@x.com"), B("a@\u043f\u043e\u0447\u0442\u0430.\u0440\u0444"), B("a@x.ru"),
+        B("a..b@x.com"), B("a@[IPv6:::1]"), B("a@a-.com"), B("a@x.arpa"), B("a@")]
+
+
+def tla_seq(b):
+    return "<<" + ",".join(str(x) for x in b) + ">>"
+
+
+def conv_answers(ctx, domains):
+    """the environment: the real converter's answers (harness/convprobe.c, same libidn2 as the library)"""
+    exe = ctx.path("convprobe")
+    if not os.path.exists(exe):
+        r = subprocess.run(["cc", "-O2", "-o", exe, os.path.join(vlib.VERIF, "harness", "convprobe.c"), "-lidn2"],
+                           stdout=subprocess.PIPE, stderr=subprocess.STDOUT, text=True)
+        if r.returncode:
+            raise Infra("convprobe compile: " + r.stdout)
+    inp = "".join(",".join(str(x) for x in d) + "\n" for d in domains)
+    r = subprocess.run([exe], input=inp, stdout=subprocess.PIPE, text=True, check=True)
+    out = []
+    for line in r.stdout.splitlines():
+        f = [int(x) for x in line.split()]
+        out.append((f[0], f[2:2 + f[1]]))
+    if len(out) != len(domains):
+        raise Infra("convprobe answered %d of %d" % (len(out), len(domains)))
+    return out
+
+
+def make_env(ctx, pool):
+    """EnvPool.tla (pool + recorded converter answers), pre-run MC_Pool, EnvData.tla (literal result tables)"""
+    sd = vlib.spec_dir(ctx)
+    doms = []
+    for a in pool:
+        at = max([i for i, x in enumerate(a) if x == 64], default=-1)
+        d = a[at + 1:] if at >= 0 else []
+        doms.append(d if d and 0 not in d else [120])
+    conv = conv_answers(ctx, doms)
+    body = "Pool == <<\n" + ",\n".join("  [a |-> %s, conv |-> [code |-> %d, out |-> %s]]" % (tla_seq(a), c, tla_seq(o))
+                                        for a, (c, o) in zip(pool, conv)) + "\n>>\n"
+    with open(os.path.join(sd, "EnvPool.tla"), "w") as f:
+        f.write("------------------------------ MODULE EnvPool ------------------------------\nEXTENDS Integers\n" + body +
+                "=============================================================================\n")
+    r = tlc_ok(ctx, "MC_Pool", "INIT Init\nNEXT Next\nINVARIANT Inv\nCHECK_DEADLOCK FALSE\n", workers=4)
+    rows = {}
+    for line in open(r["out"], errors="replace"):
+        if line.startswith('"[12,'):
+            v = json.loads(line.strip().strip('"'))
+            rows[(v[1], v[2], v[3])] = v[4:]
+    res, resf = [], []
+    for i in range(1, len(pool) + 1):
+        for m in range(1, 5):
+            for t in (0, 1):
+                rc, fl, idn, frc, ffl = rows[(i, m, t)]
+                res.append("<<%d,%d,%d>>" % (rc, fl, idn))
+                resf.append("<<%d,%d>>" % (frc, ffl))
+    with open(os.path.join(sd, "EnvData.tla"), "w") as f:
+        f.write("------------------------------ MODULE EnvData ------------------------------\nEXTENDS EnvPool, Integers\n"
+                "ResSeq == << %s >>\nResFaultSeq == << %s >>\n"
+                "=============================================================================\n" % (", ".join(res), ", ".join(resf)))
+    poolvec = ctx.path("pool.vec")
+    with open(poolvec, "w") as f:
+        for i, a in enumerate(pool, 1):
+            f.write('"[8,%d,%d%s]"\n' % (i, len(a), "".join(",%d" % x for x in a)))
+    return poolvec
+
+
+EAV_CFG = ("CONSTANTS\n  Backend = \"%s\"\n  MaxHist = %d\n  Faults = %s\n  Small = %s\n"
+           "SPECIFICATION Spec\nINVARIANT Inv\nPROPERTY HistoryIndependent\nPROPERTY ErrstrRecent\nCHECK_DEADLOCK FALSE\n")
+
+
+def classify_history(ctx, v, backend="idn2"):
+    w = v["what"]
+    case = {"kind": "history", "what": w, "failing_step": v["opts"], "history": v["in"][1:], "expected": v["exp"], "got": v["got"],
+            "backend": backend,
+            "legend": "11 ints per step: op(1 init,2 rfc=,3 tld_check=,4 allow_tld=,5 setup,6 is_email(pool idx,fault),7 errstr,8 free), a1, a2, model obs..."}
+    if backend != "idn2":
+        add_violation(ctx, "C18", "backend %s: %s" % (backend, w), case)
+    if w.startswith("outcome differs") or w.startswith("errstr does not"):
+        add_violation(ctx, "C13", w, case)
+    elif w in ("setup return", "errstr after refused setup", "diagnostics inconsistent", "errstr NULL"):
+        add_violation(ctx, "C15", w, case)
+        if w == "diagnostics inconsistent":
+            add_violation(ctx, "C13", w, case)
+    elif w.startswith("IDN failure"):
+        add_violation(ctx, "C19", w, case)
+        add_violation(ctx, "C15", w, case)
+    elif w.startswith("allocation not released") or w.startswith("release of memory"):
+        for p in ("C06", "C13", "C19"):
+            add_violation(ctx, p, w, case)
+
+
+def monitor_violation(ctx, res, what):
+    """a sanitizer / valgrind report while executing spec-generated vectors is a C06 violation"""
+    if res["crash"]:
+        add_violation(ctx, "C06", "%s: %s (exit %s)" % (what, res["crash"].get("monitor") or "crash", res["crash"]["exit"]),
+                      {"build": res["build"], "report": res["crash"]["stderr"][:2500], "current_vector": res["crash"]["current"][-800:]})
+        return True
+    return False
+
+
+def suite_object(ctx, maxhist, faults, small, backend="idn2", wrap=True, graph=True, pool=None, valgrind_n=0):
+    pool = pool or POOL
+    poolvec = make_env(ctx, pool)
+    if graph:   # the whole state graph: histories of every length
+        tlc_ok(ctx, "MC_Eav", EAV_CFG % (backend, 0, "TRUE" if faults else "FALSE", "TRUE" if small else "FALSE"), timeout=3000)
+    if maxhist:
+        r = tlc_ok(ctx, "MC_Eav", EAV_CFG % (backend, maxhist, "TRUE" if faults else "FALSE", "TRUE"), timeout=3000)
+        sample_vectors(ctx, r["out"])
+        vec = ctx.path("hist-%d-%s.vec" % (maxhist, backend))
+        with open(vec, "w") as f:
+            f.write(open(poolvec).read())
+            for line in open(r["out"], errors="replace"):
+                if line.startswith('"[7,'):
+                    f.write(line)
+        b = build(ctx, "default", 0, backend)
+        res = replay(ctx, b, vec, "hist-%d" % maxhist, wrap=wrap)
+        crash_violation(ctx, res, ["C06", ctx.prop])
+        for v in res["viol"]:
+            classify_history(ctx, v, backend)
+        ctx.cov["traces_validated_against_impl"] += res["summary"].get("vectors", 0)
+        if valgrind_n:
+            # definedness and leaks: the same histories on an uninitialised heap eav_t under valgrind-memcheck
+            lines = open(vec).read().splitlines(True)
+            head = [l for l in lines if l.startswith('"[8,')]
+            hist = [l for l in lines if l.startswith('"[7,')]
+            step = max(1, len(hist) // valgrind_n)
+            sub = ctx.path("hist-vg.vec")
+            with open(sub, "w") as f:
+                f.writelines(head + hist[::step][:valgrind_n])
+            bg = build(ctx, "debug", 0, backend)
+            rv = replay(ctx, bg, sub, "hist-vg", valgrind=True, timeout=1500, wrap=wrap)
+            monitor_violation(ctx, rv, "valgrind-memcheck on spec histories (uninitialised heap eav_t)")
+        return res
+
+
+def c13(ctx):
+    suite_object(ctx, 6 if ctx.quick() else 7, faults=False, small=False)
+    return finish(ctx, "model_checking",
+                  "TLC explores the whole reachable state graph of the eav_t machine (all histories of every length over the pool and "
+                  "user values) checking history independence (action property), dispatch = confirmed mode, heap balance, no read of an "
+                  "undefined field, errstr = most recent call; every history of exactly MaxHist calls is replayed on the real object (malloc'd, "
+                  "uninitialised before eav_init) and every eav_is_email compared with a fresh object given the same settings; "
+                  "allocation accounting through --wrap")
+
+
+def suite_scaling(ctx):
+    """linear work: deterministic instruction counts (callgrind) of the whole driver run on one shape at n, 2n, 4n;
+    growth from 2n to 4n must be about twice the growth from n to 2n (quadratic work gives four times)"""
+    from concurrent.futures import ThreadPoolExecutor
+    r = [t for t in ctx.cov["tlc_runs"] if t["module"] == "MC_Struct"]
+    out = ctx.struct_out
+    b = build(ctx, "debug", 0)
+    exe = vlib.compile_driver(ctx, b, "replay.c")
+    jobs = []
+    for line in open(out, errors="replace"):
+        if line.startswith('"[14,'):
+            v = line[2:40].split(",")
+            shape, n = int(v[1]), int(v[2])
+            f = ctx.path("scale", "s%d-n%d.vec" % (shape, n))
+            open(f, "w").write(line)
+            jobs.append((shape, n, f))
+
+    def run(job):
+        shape, n, f = job
+        od = ctx.path("scale", "o-%d-%d" % (shape, n), "x")[:-2]
+        cg = os.path.join(od, "cg.out")
+        rc, so, se = vlib.run_driver(ctx, "valgrind", ["--tool=callgrind", "--callgrind-out-file=" + cg, "-q", exe, od, "0"],
+                                     stdin_path=f, timeout=900)
+        ir = None
+        if os.path.exists(cg):
+            for l in open(cg):
+                if l.startswith("summary:") or l.startswith("totals:"):
+                    ir = int(l.split()[1])
+        return shape, n, rc, ir
+
+    with ThreadPoolExecutor(max_workers=vlib.NCPU) as ex:
+        results = list(ex.map(run, jobs))
+    by = {}
+    for shape, n, rc, ir in results:
+        if rc != 0 or ir is None:
+            add_violation(ctx, "C06", "run on a long input did not finish normally (exit %s)" % rc, {"shape": shape, "n": n})
+            continue
+        by.setdefault(shape, []).append((n, ir))
+    table = []
+    for shape, pts in sorted(by.items()):
+        pts.sort()
+        if len(pts) != 3:
+            continue
+        (n1, i1), (n2, i2), (n3, i3) = pts
+        d1, d2 = i2 - i1, i3 - i2
+        ratio = d2 / d1 if d1 > 0 else 0
+        per_byte = d2 / (n3 - n2)
+        table.append({"shape": shape, "n": n1, "ir": [i1, i2, i3], "growth_ratio": round(ratio, 3), "instr_per_byte": round(per_byte, 1)})
+        ctx.cov["evaluations"] += 3
+        ctx.cov["distinct_nontrivial"] += 3
+        if ratio > 2.6 or per_byte > 20000:
+            add_violation(ctx, "C06", "work is not linear in the input length", table[-1])
+    ctx.cov["scaling"] = table
+
+
+def c06(ctx):
+    q = ctx.quick()
+    # (1) every quick vector family under ASan+UBSan, with guard-page placement
+    vecs = []
+    vecs.append(("local", tlc_ok(ctx, "MC_Local", cfg({"MaxLen": 4 if q else 5, "AlphaId": 1, "OptBits": 0}))))
+    vecs.append(("local3", tlc_ok(ctx, "MC_Local", cfg({"MaxLen": 4 if q else 5, "AlphaId": 3, "OptBits": 0}))))
+    vecs.append(("host", tlc_ok(ctx, "MC_Host", cfg({"MaxLen": 0, "Gen": 2, "OptBits": 0}))))
+    vecs.append(("host1", tlc_ok(ctx, "MC_Host", cfg({"MaxLen": 5 if q else 6, "Gen": 1, "OptBits": 0}))))
+    vecs.append(("ip", tlc_ok(ctx, "MC_Ip", cfg({"MaxLen": 0, "Gen": 2}))))
+    vecs.append(("email", tlc_ok(ctx, "MC_Email", cfg({"MaxLen": 0, "Gen": 2, "OptBits": 0}))))
+    vecs.append(("email1", tlc_ok(ctx, "MC_Email", cfg({"MaxLen": 4 if q else 5, "Gen": 1, "OptBits": 0}))))
+    vecs.append(("tld2", tlc_ok(ctx, "MC_Tld", cfg({"Part": 2, "RowMod": 8, "RowRem": 0}))))
+    rs = tlc_ok(ctx, "MC_Struct", cfg({"Tier": 1 if q else 2}), heap="10g")
+    ctx.struct_out = rs["out"]
+    vecs.append(("struct", rs))
+    ba, bd = build(ctx, "asan", 0), build(ctx, "default", 0)
+    for tag, r in vecs:
+        sample_vectors(ctx, r["out"], k=1)
+        for b in (ba, bd):
+            res = replay(ctx, b, r["out"], "c06-" + tag, stride=1 if b is bd else 0)
+            monitor_violation(ctx, res, "executing %s vectors on build %s" % (tag, b["variant"]))
+            for v in res["viol"]:
+                if v["what"].startswith("placement"):
+                    add_violation(ctx, "C06", "result depends on bytes outside the string", v)
+    # (2) lifecycle: object model (defined fields, heap balance) + histories under --wrap accounting and valgrind
+    suite_object(ctx, 5 if q else 6, faults=True, small=True, valgrind_n=300 if q else 3000)
+    # (3) linear work: instruction counts at n, 2n, 4n for adversarial shapes
+    suite_scaling(ctx)
+    return finish(ctx, "model_checking",
+                  "spec-generated vectors (bounded-exhaustive + families + structural positions: every byte value at first/last byte and "
+                  "around @ [ ] . \", 0-length and 64 KiB inputs) executed under guard pages (read before the string / past the terminator / "
+                  "write to the input faults at once), ASan+UBSan, valgrind-memcheck on an uninitialised heap eav_t, --wrap allocation "
+                  "accounting, callgrind instruction counts at n/2n/4n; TLC checks the object model for reads of undefined fields, heap "
+                  "balance and rc <= 9 (abort unreachable)")
+
+
+def c19(ctx):
+    suite_object(ctx, 3 if ctx.quick() else 4, faults=True, small=ctx.quick())
+    return finish(ctx, "fault_enumeration",
+                  "every libidn2 return code (31) injected at every conversion call of every history (TLC state graph with the converter as "
+                  "nondeterministic environment); histories of MaxHist calls with a fault plan replayed with the converter replaced at link "
+                  "time, alternately with and without an output buffer; containment, message, heap balance, next validation unaffected")
 
 
 def c04(ctx):
@@ -332,8 +609,8 @@ def c03(ctx):
                   "decision compared with well-formed-UTF-8 + RFC 5321 grammar over code points")
 
 
-PROPS = {"C01": c01, "C02": c02, "C03": c03, "C04": c04, "C05": c05, "C07": c07, "C09": c09,
-         "C12": c12, "C15": c15, "C16": c16}
+PROPS = {"C01": c01, "C02": c02, "C03": c03, "C04": c04, "C05": c05, "C07": c07, "C08": c08, "C09": c09,
+         "C06": c06, "C12": c12, "C13": c13, "C15": c15, "C16": c16, "C19": c19}
 
 
 def replay_file(ctx, path):
